@@ -319,6 +319,7 @@ class EngineBase:
         if ty.startswith('list:') or ty.startswith('set:'):
             l = ListObj(z3.Select(self.heap_arr(st, cls, field + '.cnt', IntArr), r),
                         z3.Select(self.heap_arr(st, cls, field + '.n', I), r), ty.split(':', 1)[1], isset=ty.startswith('set:'))
+            l._seq = z3.Select(self.heap_arr(st, cls, field + '.seq', I), r)     # identity of the stored sequence value
             l.frozen = True     # value semantics: no in-place mutation through an entity field
             self.bag_facts(l, st)
             return l
@@ -372,6 +373,8 @@ class EngineBase:
             st.heap[(cls, field + '.cnt')] = z3.Store(a, r, val.cnt)
             a = self.heap_arr(st, cls, field + '.n', I)
             st.heap[(cls, field + '.n')] = z3.Store(a, r, val.n)
+            a = self.heap_arr(st, cls, field + '.seq', I)
+            st.heap[(cls, field + '.seq')] = z3.Store(a, r, val.seq)
             return
         if ty.startswith('dict:'):
             if val is None or isinstance(val, (int, float)):
@@ -511,9 +514,19 @@ class EngineBase:
             l.n = z3.If(c > 0, l.n, l.n + 1)
             l.cnt = z3.Store(l.cnt, t, z3.IntVal(1))
         else:
+            old_seq = l.seq if getattr(l, 'track_pos', False) else None
+            old_n = l.n
             l.cnt = z3.Store(l.cnt, t, z3.Select(l.cnt, t) + 1)
             l.n = l.n + 1
             l.last = t
+            if old_seq is not None:
+                # positions: append keeps the earlier items where they were and puts x at the end
+                AT = z3.Function('at', I, I, I)
+                j = z3.Int(fresh_name('apj'))
+                new_seq = l.seq
+                self.st.assume(AT(new_seq, old_n) == t)
+                self.st.assume(z3.ForAll([j], z3.Implies(z3.And(0 <= j, j < old_n), AT(new_seq, j) == AT(old_seq, j)),
+                                         patterns=[AT(new_seq, j)]))
 
     def note_elem(self, l, v):
         if l.elem is None:
@@ -559,6 +572,8 @@ class EngineBase:
     def list_copy(self, l):
         c = ListObj(l.cnt, l.n, l.elem, l.isset)
         c.hash_ordered = getattr(l, 'hash_ordered', False) or l.isset
+        if not l.isset:
+            c._seq = l.seq
         return c
 
     def list_slice_prefix(self, l, k):
